@@ -47,13 +47,18 @@ func vpSameEvent(label string, a, b PDU) {
 func vpProtoBuilder(verImpl IRoomVersion, name string) *EventBuilder {
 	ver := verImpl.Version()
 	room := vpRoomIDFor(ver, vpCreateID12)
-	typ := vpChoice(name+".type", "m.room.message", spec.MRoomMember, spec.MRoomName)
+	// event type and state key vary independently (a state key on a message, a create-typed event without one, ...)
+	typ := vpChoice(name+".type", "m.room.message", spec.MRoomMember, spec.MRoomName, spec.MRoomCreate)
 	var sk *string
-	switch typ {
-	case spec.MRoomMember:
-		sk = vpStrPtr(vpBob)
-	case spec.MRoomName:
+	switch vpChoice(name+".state_key", "nil", "empty", "user") {
+	case "empty":
 		sk = vpStrPtr("")
+	case "user":
+		sk = vpStrPtr(vpBob)
+	}
+	if typ == spec.MRoomCreate && sk != nil && vpIsV12(ver) {
+		// a genuine v12 create event carries no room_id and no prev/auth events; covered by vp_C03_create12
+		sk = nil
 	}
 	content := vpJObj("membership", vpChoice(name+".membership", spec.Join, spec.Leave), "body", vpNondetStringN(name+".body", 2))
 	prev := []string{"$p1:x"}
@@ -88,6 +93,19 @@ func vp_C03_roundtrip() {
 		return
 	}
 	vpAssert("check-fields", CheckFields(ev) == nil)
+	// the built event shows what the proto-event said
+	vpAssert("built:type", ev.Type() == eb.Type)
+	vpAssert("built:sender", string(ev.SenderID()) == eb.SenderID)
+	vpAssert("built:room", ev.RoomID().String() == eb.RoomID)
+	vpAssert("built:state_key", vpSameStateKey(ev.StateKey(), eb.StateKey))
+	vpAssert("built:depth", ev.Depth() == eb.Depth)
+	vpAssert("built:prev", vpSameStrings(ev.PrevEventIDs(), eb.PrevEvents.([]string)))
+	wantAuth := eb.AuthEvents.([]string)
+	if vpIsV12(ver) {
+		// every non-create event of a v12 room reports the create event (room ID with the sigil swapped) first
+		wantAuth = append([]string{"$" + eb.RoomID[1:]}, wantAuth...)
+	}
+	vpAssert("built:auth", vpSameStrings(ev.AuthEventIDs(), wantAuth))
 	vpAssert("built-not-redacted", !ev.Redacted())
 
 	un, err := verImpl.NewEventFromUntrustedJSON(ev.JSON())
